@@ -84,10 +84,12 @@ EXTRA = {
  "C01": "A memory-only pass (MemoryFS, altroots over it) adds thousands of cheap histories; one universe in three is built around a name family (a / a.b / 'a b' / a-1 ...: names whose text extends a sibling's).",
  "C02": "Write sessions include seeks, in-place overwrites and intermediate flushes (append sessions stay seek-free: O_APPEND differs by design).",
  "C04": "Contents include shaped data (zero runs at block boundaries, repeated blocks, block-structured multiples of 512..65536 bytes); after a copy, a further write session on either name must leave the other file untouched.",
+ "C05": "Plus a probe of filesystems whose root directory is absent (root removed while empty, altroot directory removed underneath or never created, overlay with a missing lower layer): the observers must tell one story about the root there too.",
+ "C07": "Transfers that C01 leaves unspecified (wrong-typed source, the altroot's root as source) are run as the last step of a history with the no-panic, confinement and view monitors only; a panic where the underlying twin returns is a C07 violation.",
  "C09": "Plus a directed probe of the marker-naming clash of sibling pairs (n, n_wo) (known finding KF3).",
  "C10": "Plus a probe that addresses the bookkeeping itself (/.whiteout, marker directories, marker files) after removals and then calls mutators on those addresses: nothing of it may be observable and nothing removed may come back (known finding KF4).",
  "C11": "Trees use name families (string-extension siblings) two times in three, and names freed by an earlier removal or move of the same case are re-used as destinations.",
- "C12": "The complete join sweep of C06 also runs here: a trailing-slash join that is accepted or classified as anything but invalid-path is reported under C12.",
+ "C12": "The complete join sweep of C06 also runs here: a trailing-slash join that is accepted or classified as anything but invalid-path is reported under C12. Exactness rule: a call on one entry fails at that entry or at an ancestor, so an error label strictly below the call path is a violation.",
  "C13": "Includes AsyncPhysicalFS over the prepared hostile directories, sync and async walks polled to the end while listed entries are removed, and the async read-handle scripts.",
  "C15": "Plus: write handles kept open in both worlds across rug-pulls and second writers (open, write 0..5 bytes, flush, rug-pull, close; snapshots compared after every step); async read handles against std::io::Cursor over generated read/seek scripts (async physical files included); physical transfer differential.",
  "C17": "States before the threads start: nothing; the same names created and removed again; some requested prefixes already existing; prefixes existing in the lowest overlay layer only. A thread that does not return within 1.5 s is only a deadlock suspicion: the decision list is replayed with a 20 s limit before anything is reported.",
